@@ -1,14 +1,14 @@
 #!/bin/bash
-# usage: seed_eval.sh <ID> [tier]   e.g. seed_eval.sh C14
+# usage: seed_eval.sh <ID> [tier] [round]   e.g. seed_eval.sh C14 quick 2
+# (round 2 reads /tmp/seed2-<ID> and stores under seeded/<ID>-r2)
 # Takes the sub-agent result in /tmp/seed-<ID> (SEED_patch.diff, SEED_meta.json, untracked demo test),
 # confirms it in a fresh scratch worktree (compiles, pinned tests pass, demo fails with / passes
 # without the change), runs the property's check against the patched worktree (VERIF_REPO) and
 # stores everything under /verif/seeded/<ID>/.
 set -u
-ID=$1; TIER=${2:-quick}
-SRC=/tmp/seed-$ID
-EV=/tmp/ev-$ID
-OUT=/verif/seeded/$ID
+ID=$1; TIER=${2:-quick}; ROUND=${3:-1}
+if [ "$ROUND" = 1 ]; then SRC=/tmp/seed-$ID; OUT=/verif/seeded/$ID; else SRC=/tmp/seed$ROUND-$ID; OUT=/verif/seeded/$ID-r$ROUND; fi
+EV=/tmp/ev$ROUND-$ID
 export GOFLAGS=-mod=mod GOPROXY=off GOSUMDB=off GOTOOLCHAIN=local
 [ -f $SRC/SEED_patch.diff ] || { echo "$ID: no SEED_patch.diff"; exit 2; }
 mkdir -p $OUT
